@@ -79,4 +79,19 @@ def remapTable (V : Nat) (sos : Int) (items : List (List Int × Entry)) : List (
 def checkBuilt (V : Nat) (sos : Int) (dicts : List (List Item)) (b : Buffers) : Bool :=
   checkFlat b (uOf V sos b.N) (V + shiftOf V sos) (remapTable V sos (tableOf dicts))
 
+/-! ## the hypotheses of `C06_flat`, decidable -/
+
+/-- Values a dictionary may hold: no NaN log-probability, and below the highest order a finite
+back-off weight. -/
+def valsOK (dicts : List (List Item)) : Bool :=
+  dicts.zipIdx.all (fun p => p.1.all (fun e =>
+    e.logp != LogP.nan && (p.2 + 1 == dicts.length || (match e.logb with | .fin _ => true | _ => false))))
+
+/-- The keys of one order are pairwise distinct (they are the keys of a Python dict). -/
+def keysOK (dicts : List (List Item)) : Bool :=
+  dicts.all (fun d => decide ((d.map (·.key)).Nodup))
+
+/-- What `C06_flat`, `C06_lookup`, `C06_model` assume about a table. -/
+def tableOK (dicts : List (List Item)) : Bool := keysOK dicts && valsOK dicts
+
 end PdtVerif.NgramTrie
